@@ -102,6 +102,13 @@ WideEntropyOK == (Rec.op = "wideentropy" /\ Has("vals")) =>
     \A j \in 1..Len(Rec.regions) :
         Rec.vals[j] = Entropy(S0, {Rec.regions[j][i] - off : i \in {a \in 1..Len(Rec.regions[j]) : Rec.regions[j][a] > off}})
 
+\* very wide pure states: a GHZ state whose qubits were rotated by single-qubit Clifford gates (each acts inside or
+\* outside any region, so the entropies are those of the GHZ state: lemma MC_Pad!GHZEntropy)
+GHZEntropyOK == (Rec.op = "ghzentropy" /\ Has("vals")) =>
+    \A j \in 1..Len(Rec.regions) :
+        LET A == {Rec.regions[j][i] : i \in 1..Len(Rec.regions[j])} IN
+        Rec.vals[j] = (IF A = {} \/ A = 1..Rec.n THEN 0 ELSE 1)
+
 \* ---- C05 / C02 / C03 / C14 on states: one public state-changing call per entry, applied to a
 \* fresh copy of pre (op "steps") or to the live object of the previous entry (op "walk")
 GateMap(name) == CASE name = "H" -> GateH [] name = "S" -> GateS [] name = "X" -> GateX [] name = "Y" -> GateY
